@@ -1477,6 +1477,8 @@ def _fixStringValue(s, p):
 
         if ch == '"':
             rv += '"'
+        elif ch == "'":
+            rv += "'"
         elif ch == 'n':
             rv += '\n'
         elif ch == 't':
